@@ -150,7 +150,10 @@ func genExp(r *gen.Rand) string {
 // genJar draws a history. Path vocabulary by mode: 0 = cookies without a path or with "/" (the path test
 // cannot matter), 1 = cookie and request paths from a set in which none is a proper prefix of another
 // (both path tests agree), 2 = the full mix (K1 region likely). timed: one `s` cookie phase, a W, lookups.
-func genJar(r *gen.Rand, timed, ticked bool) []jarOp {
+//
+// mal: the history starts with a MALFORMED-Set-Cookie episode (see malEpisode); in untimed histories one response step
+// in six is such an episode as well.
+func genJar(r *gen.Rand, timed, ticked, mal bool) []jarOp {
 	var ops []jarOp
 	n := 3 + r.Intn(10)
 	val := func() string { return gen.Pick(r, []string{"v1", "v2", "v3", "x", ""}) + gen.I(r.Intn(10)) }
@@ -181,6 +184,9 @@ func genJar(r *gen.Rand, timed, ticked bool) []jarOp {
 	if timed {
 		wAt = n/2 + r.Intn(2)
 	}
+	if mal {
+		ops = append(ops, malEpisode(r, gen.Pick(r, hosts), val, cPaths, rPaths)...)
+	}
 	if timed {
 		// a short-lived cookie that is certainly seen alive before and gone after the wait
 		ops = append(ops, jarOp{'S', []string{hx(hosts[0]), hx("tmp"), hx(val()), hx(gen.Pick(r, []string{"", "/"})), "s"}},
@@ -208,6 +214,10 @@ func genJar(r *gen.Rand, timed, ticked bool) []jarOp {
 		case 3:
 			ops = append(ops, jarOp{'K', []string{hx(h), hx(gen.Pick(r, jarNames)), hx(val())}})
 		case 4, 5, 6:
+			if !timed && !ticked && r.Chance(1, 6) {
+				ops = append(ops, malEpisode(r, h, val, cPaths, rPaths)...)
+				break
+			}
 			var cs []string
 			for k := r.Intn(3); k > 0; k-- {
 				cs = append(cs, hx(gen.Pick(r, jarNames))+"~"+hx(val())+"~"+hx(gen.Pick(r, cPaths))+"~"+genExp(r))
@@ -238,6 +248,136 @@ func genJar(r *gen.Rand, timed, ticked bool) []jarOp {
 		ops = append(ops, jarOp{'G', []string{hx(h), hx(gen.Pick(r, rPaths))}})
 	}
 	return ops
+}
+
+// hostKeyOf: the key the jar files a host under (host without port)
+func hostKeyOf(h string) string {
+	if i := strings.IndexByte(h, ':'); i >= 0 {
+		return h[:i]
+	}
+	return h
+}
+
+// malEpisode: host A answers a request with Set-Cookie lines of which at least one is MALFORMED (fasthttp
+// Cookie.ParseBytes fails on it) — [malformed, well-formed] (the jar step runs and handles the object ParseBytes
+// failed on), [well-formed, malformed] / [malformed] (the response hook returns the error, nothing is stored), longer
+// mixes — then cookies are acquired for ANOTHER host B with a recognisable secret value (SetByHost / SetKeyValue / a
+// response from B; one or two of them, so that pooled cookie objects are reused), then every host is read: Get and a
+// real request (the Cookie header on the wire) for A, B and a third host C. All on the case's one jar, one goroutine.
+func malEpisode(r *gen.Rand, hA string, val func() string, cPaths, rPaths []string) []jarOp {
+	var ops []jarOp
+	item := func(bad bool, name string) string {
+		s := hx(name) + "~" + hx(val()) + "~" + hx(gen.Pick(r, cPaths)) + "~" + genExp(r)
+		if bad {
+			s += "~" + gen.Pick(r, []string{"e0", "e1", "e2", "l0", "l1", "l2"})
+		}
+		return s
+	}
+	var shape []bool // true = malformed
+	switch r.Intn(8) {
+	case 0, 1, 2:
+		shape = []bool{true, false}
+	case 3:
+		shape = []bool{false, true}
+	case 4:
+		shape = []bool{true}
+	case 5:
+		shape = []bool{true, false, false}
+	case 6:
+		shape = []bool{false, true, false}
+	default:
+		shape = []bool{true, true, false}
+	}
+	var cs []string
+	for _, bad := range shape {
+		name := gen.Pick(r, jarNames)
+		if bad && r.Chance(1, 2) {
+			name = "bad" // a name nothing else stores: whoever shows it got it from the malformed line
+		}
+		cs = append(cs, item(bad, name))
+	}
+	ops = append(ops, jarOp{'R', []string{hx(hA), hx(gen.Pick(r, rPaths)), strings.Join(cs, "+")}})
+	other := func(not ...string) string {
+		for _, h := range []string{"b.com", "a.com", "sub.a.com", "c.org"} {
+			ok := true
+			for _, n := range not {
+				ok = ok && hostKeyOf(h) != hostKeyOf(n)
+			}
+			if ok {
+				return h
+			}
+		}
+		return "d.net"
+	}
+	hB := other(hA)
+	hC := other(hA, hB)
+	secret := func() string { return "secretB" + gen.I(r.Intn(10)) }
+	for k := 1 + r.Intn(2); k > 0; k-- {
+		switch r.Intn(4) {
+		case 0, 1:
+			ops = append(ops, jarOp{'S', []string{hx(hB), hx(gen.Pick(r, []string{"s", "k"})), hx(secret()), hx(gen.Pick(r, []string{"", "/"})), gen.Pick(r, []string{"n", "f"})}})
+		case 2:
+			ops = append(ops, jarOp{'K', []string{hx(hB), hx(gen.Pick(r, []string{"s", "k"})), hx(secret())}})
+		default:
+			ops = append(ops, jarOp{'R', []string{hx(hB), hx("/"), hx(gen.Pick(r, []string{"s", "k"})) + "~" + hx(secret()) + "~" + hx(gen.Pick(r, []string{"", "/"})) + "~n"}})
+		}
+	}
+	for _, h := range []string{hA, hB, hC} {
+		p := gen.Pick(r, rPaths)
+		ops = append(ops, jarOp{'G', []string{hx(h), hx(p)}}, jarOp{'R', []string{hx(h), hx(p), "-"}})
+	}
+	return ops
+}
+
+// malformedCounters: generator distribution of the malformed-Set-Cookie histories
+func malformedCounters(ops []jarOp) []string {
+	var out []string
+	anyMal, malThenWf, malLast, after := false, false, false, false
+	for i, o := range ops {
+		if o.kind != 'R' || o.parts[2] == "-" {
+			continue
+		}
+		items := strings.Split(o.parts[2], "+")
+		bad := func(it string) bool { return len(strings.Split(it, "~")) == 5 }
+		has := false
+		for _, it := range items {
+			has = has || bad(it)
+		}
+		if !has {
+			continue
+		}
+		anyMal = true
+		if bad(items[len(items)-1]) {
+			malLast = true
+		} else {
+			malThenWf = true
+		}
+		// a later store for another host key, then a later lookup
+		for j := i + 1; j < len(ops); j++ {
+			s := ops[j]
+			stores := s.kind == 'S' || s.kind == 'K' || (s.kind == 'R' && s.parts[2] != "-")
+			if stores && hostKeyOf(un(s.parts[0])) != hostKeyOf(un(o.parts[0])) {
+				for _, l := range ops[j+1:] {
+					if l.kind == 'G' || l.kind == 'X' || l.kind == 'R' {
+						after = true
+					}
+				}
+			}
+		}
+	}
+	if anyMal {
+		out = append(out, "setcookie-malformed")
+	}
+	if malThenWf {
+		out = append(out, "malformed-then-wellformed")
+	}
+	if malLast {
+		out = append(out, "malformed-last-request-fails")
+	}
+	if after {
+		out = append(out, "after-malformed-other-host")
+	}
+	return out
 }
 
 func genSched(r *gen.Rand) []string {
